@@ -1107,15 +1107,19 @@ bool Session::send_process(Message *msg) // called from the connection (possibly
 
 		if (!is_dup)
 		{
+			const bool increment(!msg->get_custom_seqnum() && !msg->get_no_increment() && msg->get_msgtype() != Common_MsgType_SEQUENCE_RESET);
 			if (_persist)
 			{
+				// the number moves on inside the lock: the thread processing inbound messages persists both numbers under the same
+				// lock and must not write a send number that is about to be superseded
 				f8_scoped_spin_lock guard(_per_spl, _connection->get_pmodel() == pm_coro); // not needed for coroutine mode
 				if (!msg->is_admin())
 					_persist->put(_next_send_seq, optr); // this message, not the batch buffer ptr may have been redirected to
-				_persist->put(_next_send_seq + 1, _next_receive_seq);
-				//cout << "Persisted (send):" << (_next_send_seq + 1) << " and " << _next_receive_seq << endl;
+				_persist->put(_next_send_seq + (increment ? 1 : 0), _next_receive_seq);
+				if (increment)
+					++_next_send_seq;
 			}
-			if (!msg->get_custom_seqnum() && !msg->get_no_increment() && msg->get_msgtype() != Common_MsgType_SEQUENCE_RESET)
+			else if (increment)
 			{
 				++_next_send_seq;
 				//cout << "Seqnum now:" << _next_send_seq << " and " << _next_receive_seq << endl;
